@@ -66,6 +66,12 @@ def classify_return(P, fn, N, e):
     """-> (kind, detail). kinds: literal, lib3, sign-expr, narrowing, other"""
     raw = N.norm(e)
     t = ir.top_nocast(raw)
+    for x in ir.walk(raw):
+        if x[0] in ('icast', 'cast') and x[1] in ('double', 'float', 'long double'):
+            inner = ir.top_nocast(x[2])
+            if any(y[0] == 'call' and ir.callee_name(y) in ('c_int', 'Int_C_Int', 'Thread_C_Int') for y in ir.walk(inner)) or \
+                    (inner[0] == 'arrow' and len(inner) > 3 and inner[3] in ('long', 'unsigned long')):
+                return 'narrowing', 'the 64-bit integer `%s` is converted to %s before it is compared: integers above 2^53 that differ collapse to the same value, so cmp returns 0 for unequal operands' % (ir.fmt(ir.canon(inner)), x[1])
     # narrowing conversions anywhere at the top of the returned value
     x = raw
     while ir.is_expr(x) and x[0] in ('cast', 'icast'):
